@@ -95,7 +95,7 @@ def formulas(bp, wl, thr_value, area_cm2):
                 F_['tlambda'] = t['ok']
         if yox != 0:
             F_['pivot'] = sqrt(yx / yox)
-            bl = math.exp(trapezoid(y * np.log(x) / x, x=x) / yox)
+            bl = float(np.exp(trapezoid(y * np.log(x) / x, x=x) / yox))
             F_['barlam'] = bl
         if yx != 0 and area_cm2 != 0:
             F_['unit_response'] = units.HC.value / (area_cm2 * yx)
@@ -143,6 +143,12 @@ def impl_call(case):
         out['_formula'] = fo['ok'].get('formula')
     else:
         out['_sample_err'] = fo['err']
+    # variation of the bandpass around the average wavelength (see compare): at a jump, tlambda depends on the last bit
+    av = out['ok']['avgwave'].get('ok')
+    if av:
+        sp = guarded(lambda: bp(np.array([av * (1 - 1e-13), av, av * (1 + 1e-13)])).value)
+        if 'ok' in sp:
+            out['_tl_spread'] = max(sp['ok']) - min(sp['ok'])
     # scale law: bp * k with the threshold scaled alongside
     k = O.fl(case['k'])
     out['_scaled'] = call_all(bp * k, wl, None if thr is None else thr * k, area)
@@ -190,7 +196,19 @@ def compare(case, o, m):
             if q(a['ok']) != b['ok'] and q(a['ok']) in mm['wpeak_ties']:
                 continue        # several samples within 1e-12 of the peak: binary64 picks another first match
         atol = 1e-11 * scale if meth in WIDTHS else 0.0
-        r = same(a, b, rtol=1e-9, atol=atol, path=meth)
+        rtol = 1e-9
+        if meth in ('tlambda', 'emflx') and mm.get('tl_spread') is not None:
+            # binary64 places avgwave within ~1e-13 of its exact value: tlambda is compared up to the variation of the
+            # bandpass over that neighbourhood (at a jump - box edge, end of a table - it is not determined at all)
+            spread = float(unq(mm['tl_spread']))
+            tlm = abs(float(unq(mm['tlambda']['ok']))) if 'ok' in mm['tlambda'] else 0.0
+            if spread > 0 and spread > 0.1 * tlm:
+                continue
+            if meth == 'tlambda':
+                atol = 2 * spread
+            elif tlm > 0:
+                rtol = 1e-9 + 4 * spread / tlm
+        r = same(a, b, rtol=rtol, atol=atol, path=meth)
         if r:
             return r
     return None
@@ -226,6 +244,21 @@ def oracle(rep, case, out):
         o = D[meth]
         return o['ok'] if 'ok' in o and isinstance(o['ok'], float) else None
 
+    spread = out.get('_tl_spread', 0.0)
+    tl0 = abs(val(R, 'tlambda') or 0.0)
+    tl_jump = spread > 0 and spread > 0.1 * tl0
+
+    def tol(meth, rtol, factor=1.0):
+        """(rtol, atol) for comparing two evaluations of `meth`, or None when the comparison is void: tlambda (and
+        emflx through it) is the bandpass at avgwave, which binary64 places within ~1e-13 of its exact value"""
+        if meth in ('tlambda', 'emflx'):
+            if tl_jump:
+                return None
+            if meth == 'tlambda':
+                return rtol, 2 * spread * factor
+            return rtol + (4 * spread / tl0 if tl0 else 0.0), 0.0
+        return rtol, (1e-11 * xs if meth in WIDTHS else 0.0)
+
     # 1. formulae
     if not signed and nonneg:
         for meth, want in Fm.items():
@@ -234,7 +267,7 @@ def oracle(rep, case, out):
             if got is None:
                 rep.oracle_fail('%s:formula:%s:%s' % (meth, R[meth].get('err', 'novalue'), c),
                                 '%s has a documented value %r but returned %s' % (meth, want, core._short(R[meth])), case, R)
-            elif not rel_close(got, want, 1e-9, 1e-11 * xs if meth in WIDTHS else 0.0):
+            elif tol(meth, 1e-9) is not None and not rel_close(got, want, *tol(meth, 1e-9)):
                 rep.oracle_fail('%s:formula:%s' % (meth, c), '%s = %r, documented formula on the same samples gives %r'
                                 % (meth, got, want), case, R)
     # 2. identities
@@ -250,11 +283,17 @@ def oracle(rep, case, out):
         rep.oracle_fail('identity:emflx', 'emflx = %r, uresp*equvw/tlambda = %r' % (em, ur * ew / tl), case, R)
     if signed:
         return
+    # with several samples within rounding of the peak, "first match" is decided by the last bit
+    uniq = n > 0 and int(np.sum(y >= y.max() * (1 - 1e-12) - 1e-300)) == 1
     # 3. scale laws
     k = O.fl(case['k'])
     S = out['_scaled']
     for meth, p in SCALE.items():
+        if meth == 'wpeak' and not uniq:
+            continue
         a, b = val(R, meth), val(S, meth)
+        if tol(meth, 1e-9) is None:
+            continue
         if a is None and b is None:
             if R[meth].get('err') != S[meth].get('err'):
                 rep.oracle_fail('scale:%s:outcome' % meth, 'bp: %s, bp*k: %s' % (core._short(R[meth]), core._short(S[meth])), case, R)
@@ -265,7 +304,7 @@ def oracle(rep, case, out):
         if meth in THR and case['threshold'] is not None and case.get('_thr_fragile'):
             continue
         want = a * k ** p
-        if not rel_close(b, want, 1e-9, 1e-11 * xs if meth in WIDTHS else 0.0):
+        if not rel_close(b, want, *tol(meth, 1e-9, k ** p)):
             rep.oracle_fail('scale:%s' % meth, '%s(bp*k) = %r, expected %s = %r' % (
                 meth, b, {0: 'the same', 1: 'k times', -1: '1/k times'}[p], want), case, R)
     # 4. in range, 5. ordering
@@ -285,7 +324,6 @@ def oracle(rep, case, out):
             if vals['pivot'] > vals['avgwave'] * (1 + 1e-9):
                 rep.oracle_fail('order:pivot_le_avgwave:regular', 'pivot %r > avgwave %r' % (vals['pivot'], vals['avgwave']), case, R)
     # 6. order and unit of the wavelength argument
-    uniq = n > 0 and int(np.sum(y >= y.max() * (1 - 1e-12) - 1e-300)) == 1
     for name, rtol in (('_rev', 1e-9), ('_unit', 1e-12)):
         V = out.get(name)
         if V is None:
@@ -301,11 +339,13 @@ def oracle(rep, case, out):
                 continue
             if meth in THR and name == '_rev' and case.get('_thr_fragile'):
                 continue
+            if tol(meth, rtol) is None:
+                continue
             a, b = R[meth], V[meth]
             if ('ok' in a) != ('ok' in b) or ('err' in a and a['err'] != b.get('err')):
                 rep.oracle_fail('invariance:%s:%s:outcome' % (name[1:], meth), 'given order/unit: %s, other: %s' % (
                     core._short(a), core._short(b)), case, R)
-            elif 'ok' in a and isinstance(a['ok'], float) and not rel_close(a['ok'], b['ok'], rtol, 1e-11 * xs if meth in WIDTHS else 0.0):
+            elif 'ok' in a and isinstance(a['ok'], float) and not rel_close(a['ok'], b['ok'], *tol(meth, rtol)):
                 rep.oracle_fail('invariance:%s:%s' % (name[1:], meth), '%s = %r, with the wavelengths %s: %r' % (
                     meth, a['ok'], 'reversed' if name == '_rev' else 'in ' + case['grid_unit']['unit'], b['ok']), case, R)
 
@@ -444,7 +484,37 @@ def to_unit(pts, unit):
     return vals, [float(v) for v in ang]
 
 
+def underflow_risk(c):
+    """binary64 cannot carry 9 digits through its subnormal range: a case is regenerated when some sample of a
+    Gaussian factor falls where exp(-(x-mean)^2/2sd^2) (times the other factors, k, 1/x) is subnormal, i.e. about
+    36..39 standard deviations out (beyond that it is exactly 0, which is fine)"""
+    e = c['expr']
+    gs = [(unq(p['leaf']['mean']), unq(p['leaf']['sd'])) for p in O.walk_prims(e) if p['leaf']['leaf'] == 'gaussian']
+    if not gs:
+        return False
+    if c['grid'] is not None:
+        xs = [unq(v) for v in c['grid']]
+    else:
+        xs = []
+        for p in O.walk_prims(e):
+            xs += [unq(v) for v in p['leaf'].get('pts', [])] + [unq(v) for v in p['leaf'].get('ss', [])]
+    for x in xs:
+        Es = [float(((x - m) / sd) ** 2) / 2 for m, sd in gs]
+        # beyond ~745 a single factor is exactly 0 on both sides; a product of two small non-zero factors underflows
+        # in binary64 only
+        if sum(Es) >= 600 and max(Es) <= 790:
+            return True
+    return False
+
+
 def gen_case(rng, K, nmax_t, nmax_g):
+    while True:
+        c = gen_case1(rng, K, nmax_t, nmax_g)
+        if not underflow_risk(c):
+            return c
+
+
+def gen_case1(rng, K, nmax_t, nmax_g):
     e, signed = gen_expr(rng, nmax_t)
     c = {'op': 'bandpar', 'const': K, 'expr': e, 'signed': signed, 'grid': None}
     analytic_only = all(p['leaf']['leaf'] != 'empirical' for p in O.walk_prims(e))
@@ -537,6 +607,9 @@ def tags(c, o):
         t.append('outcome:degenerate(den==0)')
     else:
         t.append('outcome:ok')
+    sp, tl = o.get('_tl_spread', 0.0), abs(R['tlambda'].get('ok') or 0.0)
+    if sp > 0 and sp > 0.1 * tl:
+        t.append('tlambda:avgwave_at_a_jump(not compared)')
     if 'err' in R['tlambda'] and 'err' not in R['avgwave']:
         t.append('tlambda:' + R['tlambda']['err'])
     elif R['tlambda'].get('ok') == 0:
